@@ -406,13 +406,9 @@ func workC12(c *shardCtx) {
 		}
 		c.add("expressions", 1)
 		c.journal("C12 expression " + text)
-		dfs := ei < curated || (ei/c.shards)%8 == 0 || (c.thorough() && (ei/c.shards)%2 == 0)
-		bound := 1
-		if c.thorough() && ei < curated {
-			bound = 2
-		}
+		dfs := ei < curated || (ei/c.shards)%8 == 0 || (c.thorough() && (ei/c.shards)%3 == 0)
 		n := nThreads
-		if c.thorough() && ei < curated && ei%3 == 0 {
+		if c.thorough() && ei < 12 && ei%3 == 0 {
 			n = 3
 		}
 		scs := makeScenarios(text, n, ei)
@@ -456,6 +452,12 @@ func workC12(c *shardCtx) {
 				want[i] = solos[i].result
 			}
 			var st *scState
+			// thorough: preemption bound 2 for the first 24 hand-written expressions in the scenarios that share
+			// the compiled expression between identical bodies (S1, S2); bound 1 everywhere else
+			bound := 1
+			if c.thorough() && ei < 24 && n == 2 && (strings.HasPrefix(sc.name, "S1") || strings.HasPrefix(sc.name, "S2")) {
+				bound = 2
+			}
 			ex := &vsched.Explorer{Bound: bound, MaxExecs: 200000}
 			var base snap.Digest
 			ex.NewRun = func() ([]func() interface{}, func(*vsched.Sched), func(*vsched.Exec) string) {
@@ -545,7 +547,12 @@ func finishC12(r *harness.Run, k map[string]int64, notes map[string]interface{})
 	for kk, v := range notes {
 		r.Note(kk, v)
 	}
-	return harness.Coverage{Exhaustive: true, Bounds: map[string]interface{}{"preemption_bound": 1, "threads": 2}, Outcomes: k["distinct_outcomes"]}
+	bounds := map[string]interface{}{"preemption_bound": 1, "threads": 2}
+	if r.Thorough() {
+		bounds["preemption_bound_shared_expression_scenarios_first_24_expressions"] = 2
+		bounds["threads_first_12_expressions_every_third"] = 3
+	}
+	return harness.Coverage{Exhaustive: true, Bounds: bounds, Outcomes: k["distinct_outcomes"]}
 }
 
 var _ = model.Canon
